@@ -88,7 +88,11 @@ PROPS['C11'] = {
 }
 
 SCANNER_TRUST = ['input model: Input::rem()/avail()/buffered()/cap() are ghost methods of the trait; every implementation must define them and is verified (or, for the byte-indexed StrInput overrides and BufferedInput, assumed - see functions_not_under_contract) against the same clauses',
-                 'scanner functions not yet under contract are external_body: their callers learn nothing about them']
+                 'scanner functions not yet under contract are external_body: their callers learn nothing about them',
+                 'ASSUMED (A6): #[derive(Clone)] of SimpleKey copies every field - one assume() after the clone in fetch_value (derived code inside the crate cannot carry a contract)',
+                 'ASSUMED frame of scan_block_scalar / scan_flow_scalar / scan_plain_scalar (scalar_scan_post: only the position moves, truthfully; token queue and simple keys untouched; at least one character consumed) - their helpers are verified, their main loops are not yet',
+                 'ASSUMED (A2): token_count + 8 fits in usize (axiom_token_count_fits)',
+                 'rewrites R8 (`&mut self.simple_keys` -> `self.simple_keys.iter_mut()`, what <&mut Vec as IntoIterator>::into_iter calls) and R9 (the one format! error message evaluated in an external_body helper)']
 
 PROPS['C04'] = {
     'units': ['parser'],
